@@ -30,18 +30,20 @@ pub struct Transfers {
 pub fn transfers(scn: &SenderScn, trace: &SenderTrace) -> Transfers {
     let mut list: Vec<Transfer> = Vec::new();
     let mut errors = Vec::new();
-    let toi_obj: BTreeMap<u128, usize> = trace
-        .obj_toi
-        .iter()
-        .enumerate()
-        .filter_map(|(i, t)| t.map(|t| (t, i)))
-        .collect();
+    // a TOI may be reused once its object is gone (C15 cycles the TOI space): an event belongs to the
+    // object that was given this TOI most recently before the event
+    let mut adds: Vec<(u128, u64, usize)> = Vec::new();
+    for r in &trace.ops {
+        if let (Op::Add(i), OpResult::Added(toi)) = (&r.op, &r.result) {
+            adds.push((*toi, r.seq, *i));
+        }
+    }
     let _ = scn;
     let mut open: BTreeMap<u128, usize> = BTreeMap::new();
-    let mut count: BTreeMap<u128, usize> = BTreeMap::new();
+    let mut count: BTreeMap<usize, usize> = BTreeMap::new();
     for e in &trace.sub {
-        let obj = match toi_obj.get(&e.toi) {
-            Some(o) => *o,
+        let obj = match adds.iter().filter(|(toi, seq, _)| *toi == e.toi && *seq < e.seq).max_by_key(|(_, seq, _)| *seq) {
+            Some((_, _, o)) => *o,
             None => {
                 errors.push(format!("event for unknown toi {}", e.toi));
                 continue;
@@ -51,7 +53,7 @@ pub fn transfers(scn: &SenderScn, trace: &SenderTrace) -> Transfers {
             if open.contains_key(&e.toi) {
                 errors.push(format!("StartTransfer toi={} while a transfer is open", e.toi));
             }
-            let n = count.entry(e.toi).or_insert(0);
+            let n = count.entry(obj).or_insert(0);
             *n += 1;
             open.insert(e.toi, list.len());
             list.push(Transfer {
